@@ -229,6 +229,9 @@ Section Algebra.
     - change (2 ^ 0) with 1. now rewrite Z.mod_1_r.
   Qed.
 
+  (* discriminate / inversion must never unfold the 256-step loop *)
+  Local Opaque point_mul_with le_bytes le_val.
+
   (* ---------------- parity and negation ---------------- *)
   Lemma p_odd : Z.odd p = true.
   Proof. exact (proj2 (cl_p _ _ _ _ _ _ L)). Qed.
